@@ -149,6 +149,8 @@ func New(opts ...Option) *Server {
 	var nodes schema.UANodeSet
 	xml.Unmarshal(schema.OpcUaNodeSet2, &nodes)
 
+	s.cb.allowed = s.securityEnabled
+
 	n0, ok := s.namespaces[0].(*NodeNameSpace)
 	n0.srv = s
 	if !ok {
@@ -167,6 +169,20 @@ func New(opts ...Option) *Server {
 	}
 
 	return s
+}
+
+// securityEnabled reports whether the (policy, mode) pair was enabled with EnableSecurity.
+func (s *Server) securityEnabled(policyURI string, mode ua.MessageSecurityMode) bool {
+	if len(s.cfg.enabledSec) == 0 {
+		// no EnableSecurity option at all: keep the historical default of an unsecured server
+		return policyURI == ua.SecurityPolicyURINone && mode == ua.MessageSecurityModeNone
+	}
+	for _, sec := range s.cfg.enabledSec {
+		if sec.secPolicy == policyURI && sec.secMode == mode {
+			return true
+		}
+	}
+	return false
 }
 
 func (s *Server) Session(hdr *ua.RequestHeader) *session {
